@@ -325,7 +325,10 @@ func (w *World) threadAlts(th *thread) (alts []alt, hasDefault bool) {
 					if k > 0 && k < n {
 						answer(fmt.Sprintf("%dB of %d", k, n), F, k, nil, nil)
 						if f.ReadStall {
-							answer(fmt.Sprintf("%dB of %d then stall", k, n), F, k, nil, func() { c.stallNext = true })
+							answer(fmt.Sprintf("%dB of %d then stall", k, n), F, k, nil, func() {
+								c.stallNext = true
+								w.ev(Event{K: "stall", C: c.id})
+							})
 						}
 					}
 				}
